@@ -1,6 +1,7 @@
 from datetime import datetime, timezone
 from typing import Any, TYPE_CHECKING
 from functools import lru_cache
+from numbers import Integral, Real
 
 from dliswriter.utils.internal.internal_enums import RepresentationCode
 
@@ -161,6 +162,10 @@ def write_struct(representation_code: RepresentationCode, value: Any) -> bytes:
     if representation_code is RepresentationCode.OBNAME or representation_code is RepresentationCode.OBJREF:
         # references to (mutable) EFLR items must not be cached: the item can be renamed or get another origin
         return _struct_dict[representation_code](value)
+
+    if isinstance(value, Real) and not isinstance(value, Integral):
+        # equal floats do not always share an encoding (0.0 == -0.0): they bypass the cache, which is keyed by equality
+        return _write_struct_cached.__wrapped__(representation_code, value)
 
     return _write_struct_cached(representation_code, value)
 
